@@ -76,6 +76,16 @@ fi
 exec /bin/rm "$@"
 ''',
     "logname": "#!/bin/sh\necho root\n",
+    # the clock as the scripts see it: with VERIF_DATE_SEQ (a file of dates, one per line) successive calls
+    # for '+%Y-%m-%d' take one line each, the last line stays: midnight may pass between two calls
+    "date": r'''#!/bin/sh
+if [ -n "${VERIF_DATE_SEQ:-}" ] && [ "$*" = "+%Y-%m-%d" ] && [ -s "$VERIF_DATE_SEQ" ]; then
+    head -1 "$VERIF_DATE_SEQ"
+    if [ "$(wc -l < "$VERIF_DATE_SEQ")" -gt 1 ]; then sed -i 1d "$VERIF_DATE_SEQ"; fi
+    exit 0
+fi
+exec /bin/date "$@"
+''',
     "sysctl": "#!/bin/sh\nexit 1\n",
     "sendmail": r'''#!/bin/bash
 {
